@@ -140,6 +140,19 @@ def execute(sc):
         stall[k % len(chunks)] = stall.get(k % len(chunks), 0.0) + float(sec)
     if stall:
         probes["stalled_delivery"] = 1
+    chunk_as = sub["cuts"].get("as")
+    rx = bytearray()
+
+    def handed(chunk):
+        if chunk_as == "bytearray":
+            return bytearray(chunk)
+        if chunk_as == "reused_bytearray":
+            rx[:] = chunk  # one receive buffer, refilled before every call
+            return rx
+        return chunk
+
+    if chunk_as:
+        probes[f"chunks_as_{chunk_as}"] = 1
     try:
         with clock, stepbudget.StepBudget(budget) as sb:
             by = None
@@ -155,7 +168,7 @@ def execute(sc):
                         by.step(idx)
                     clock.t += stall.get(idx, 0.0) + len(chunk) / reader_rig.LINE_RATE
                     try:
-                        msgs = reader.read(chunk)
+                        msgs = reader.read(handed(chunk))
                     except Exception as ex:  # noqa: BLE001
                         where = "noise" if pos < noise_len else "clean-suffix"
                         add("X", f"read raised {type(ex).__name__} {reader_rig.exc_site(ex)}", f"read() call #{idx} (stream offset {pos}, in {where}) raised {repr(ex)[:200]}")
@@ -195,7 +208,7 @@ def execute(sc):
                         by.step(idx)
                     clock.t += stall.get(idx, 0.0) + len(chunk) / reader_rig.LINE_RATE
                     try:
-                        proto.data_received(chunk)
+                        proto.data_received(handed(chunk))
                     except Exception as ex:  # noqa: BLE001
                         add("X", f"data_received raised {type(ex).__name__} {reader_rig.exc_site(ex)}", f"data_received() call #{idx} (stream offset {pos}, candidates {sc['cands']}) raised {repr(ex)[:200]}")
                         raised = True
@@ -244,15 +257,19 @@ def candidates(sc):
     sub = sc["c16"]
     if sc.get("bystander"):
         yield {k: v for k, v in copy.deepcopy(sc).items() if k != "bystander"}
+    for simpler in fragment.simpler(sub["cuts"]):
+        c = copy.deepcopy(sc)
+        c["c16"]["cuts"] = simpler
+        yield c
     if sub["cuts"]["m"] != "whole":
         c = copy.deepcopy(sc)
-        c["c16"]["cuts"] = {"m": "whole"}
+        c["c16"]["cuts"] = fragment.keep(sub["cuts"], {"m": "whole"})
         yield c
     if sub["cuts"]["m"] == "list":
         for red in shrink.list_reductions(sub["cuts"]["at"]):
             if red:
                 c = copy.deepcopy(sc)
-                c["c16"]["cuts"] = {"m": "list", "at": red}
+                c["c16"]["cuts"] = fragment.keep(sub["cuts"], {"m": "list", "at": red})
                 yield c
     # drop the clean suffix down to a minimum
     if sub["reader"] == "p1" and len(sub["clean"]) > 1:
